@@ -22,6 +22,8 @@ pub enum EventKind {
     WaitBegin,
     /// woken up, about to take the mutex again
     WaitEnd,
+    /// `Condvar::wait_timeout`: like WaitBegin, but the waiter also goes on when its time is up
+    TimedWaitBegin,
     NotifyAll,
     NotifyOne,
 }
@@ -40,11 +42,14 @@ pub struct Event {
 #[derive(Clone, Copy)]
 pub struct Observer {
     pub event: fn(Event),
+    /// with `virtual_condvars`: called after `event(TimedWaitBegin)` returned; true = woken by a notification, false = timed out
+    pub was_notified: fn() -> bool,
     /// if true, `Condvar::wait` does not block on the real condvar: `event(WaitBegin)` returns when the waiter may go on
     pub virtual_condvars: bool,
 }
 
 static OBSERVER_FN: AtomicUsize = AtomicUsize::new(0);
+static OBSERVER_NOTIFIED_FN: AtomicUsize = AtomicUsize::new(0);
 static OBSERVER_VIRTUAL: AtomicUsize = AtomicUsize::new(0);
 static NEXT_ID: AtomicUsize = AtomicUsize::new(1);
 
@@ -52,6 +57,7 @@ pub fn set_observer(o: Option<Observer>) {
     match o {
         Some(o) => {
             OBSERVER_VIRTUAL.store(o.virtual_condvars as usize, Ordering::SeqCst);
+            OBSERVER_NOTIFIED_FN.store(o.was_notified as usize, Ordering::SeqCst);
             OBSERVER_FN.store(o.event as usize, Ordering::SeqCst);
         }
         None => {
@@ -155,6 +161,16 @@ impl<T: ?Sized> Drop for MutexGuard<'_, T> {
     }
 }
 
+/// Same role as `std::sync::WaitTimeoutResult` (which cannot be built outside std).
+#[derive(Debug, Clone, Copy, PartialEq, Eq)]
+pub struct WaitTimeoutResult(bool);
+
+impl WaitTimeoutResult {
+    pub fn timed_out(&self) -> bool {
+        self.0
+    }
+}
+
 pub struct Condvar {
     id: usize,
     site: &'static Location<'static>,
@@ -199,6 +215,55 @@ impl Condvar {
                 mutex,
                 guard: Some(p.into_inner()),
             })),
+        }
+    }
+
+    pub fn wait_timeout<'a, T>(
+        &self,
+        mut guard: MutexGuard<'a, T>,
+        dur: std::time::Duration,
+    ) -> LockResult<(MutexGuard<'a, T>, WaitTimeoutResult)> {
+        let mutex = guard.mutex;
+        if OBSERVER_FN.load(Ordering::SeqCst) != 0 && OBSERVER_VIRTUAL.load(Ordering::SeqCst) != 0 {
+            drop(guard);
+            emit(EventKind::TimedWaitBegin, mutex.id, self.id, self.site);
+            let f = OBSERVER_NOTIFIED_FN.load(Ordering::SeqCst);
+            let notified = if f != 0 {
+                let f: fn() -> bool = unsafe { std::mem::transmute(f) };
+                f()
+            } else {
+                false
+            };
+            emit(EventKind::WaitEnd, mutex.id, self.id, self.site);
+            return match mutex.lock() {
+                Ok(g) => Ok((g, WaitTimeoutResult(!notified))),
+                Err(p) => Err(PoisonError::new((p.into_inner(), WaitTimeoutResult(!notified)))),
+            };
+        }
+        let inner = guard.guard.take().unwrap();
+        emit(EventKind::Released, mutex.id, 0, mutex.site);
+        emit(EventKind::TimedWaitBegin, mutex.id, self.id, self.site);
+        let r = self.inner.wait_timeout(inner, dur);
+        emit(EventKind::WaitEnd, mutex.id, self.id, self.site);
+        emit(EventKind::Acquired, mutex.id, 0, mutex.site);
+        match r {
+            Ok((g, t)) => Ok((
+                MutexGuard {
+                    mutex,
+                    guard: Some(g),
+                },
+                WaitTimeoutResult(t.timed_out()),
+            )),
+            Err(p) => {
+                let (g, t) = p.into_inner();
+                Err(PoisonError::new((
+                    MutexGuard {
+                        mutex,
+                        guard: Some(g),
+                    },
+                    WaitTimeoutResult(t.timed_out()),
+                )))
+            }
         }
     }
 
